@@ -193,6 +193,17 @@ benign("window-wrapper-fresh", "the processor keeps its window in a small wrappe
 benign("set-floor-two-branches", "setFloor copies on both branches of a debug test",
        (MO, "\tout.Copy(f)\n\treturn out\n", "\tif d.debug != nil {\n\t\td.debug.update(\"floor\", 1)\n\t\tout.Copy(f)\n\t\treturn out\n\t}\n\tout.Copy(f)\n\treturn out\n", False))
 
+benign("process-frame-row-copy", "ProcessFrame copies the source frame row by row instead of through Frame.Copy",
+       (MP, "\tframe.Copy(srcFrame)\n", "\tframe.Status = srcFrame.Status\n\tfor y := range frame.Pix {\n\t\tcopy(frame.Pix[y], srcFrame.Pix[y])\n\t}\n", False))
+benign("copyrecent-local-after-lock", "CopyRecent keeps the chosen slot in a local (still under the lock)",
+       (FL, "\tpreviousIndex := (fl.currentIndex - 1 + fl.size) % fl.size\n\treturn fl.frames[previousIndex].CreateCopy()", "\tpreviousIndex := (fl.currentIndex - 1 + fl.size) % fl.size\n\trecent := fl.frames[previousIndex]\n\treturn recent.CreateCopy()", False))
+benign("stop-constant-logs-error", "stopConstantRecorder logs a failing stop but still clears its counter",
+       (MP, "\tmp.constantRecorder.StopRecording()\n\tmp.crFrames = 0\n", "\tif err := mp.constantRecorder.StopRecording(); err != nil {\n\t\tmp.log.Printf(\"error with stoping constant recorder: %v\", err)\n\t}\n\tmp.crFrames = 0\n", False))
+benign("mean-through-local", "the mean accumulates a local read after the update",
+       (MO, "\t\t\taverage = average + float64(d.background.Pix[y][x])/d.numPixels\n\t\t\tfor x := 0; x < d.start; x++ {", "\t\t\tupdated := d.background.Pix[y][x]\n\t\t\taverage = average + float64(updated)/d.numPixels\n\t\t\tfor x := 0; x < d.start; x++ {", False))
+benign("request-nonblocking-notify", "RequestSnapshot also pokes a buffered channel without blocking",
+       (MP, "\tatomic.StoreUint32(&mp.startSnapshot, 1)\n}", "\tatomic.StoreUint32(&mp.startSnapshot, 1)\n\tselect {\n\tcase snapshotPoke <- struct{}{}:\n\tdefault:\n\t}\n}\n\nvar snapshotPoke = make(chan struct{}, 1)", False))
+
 here = os.path.dirname(os.path.abspath(__file__))
 for f in os.listdir(os.path.join(here, "benign")):
     os.unlink(os.path.join(here, "benign", f))
